@@ -1,3 +1,102 @@
+import Driver.Util
 import Driver.Loop
-/- placeholder: the C01 view has no executable model yet -/
-def main : IO Unit := Drv.runLoop fun _ => .atom "bad-op"
+import PMV.Model.MaskPath
+/- line-protocol handlers for the C01 view (mask paths)
+
+   request:  (c01 run <path> (<opd> …) <fail>)      |   (c01 tree <expr>)
+   opd    := ((shape) <mask>)
+   mask   := T | F | (bits…)  — array of the operand's shape | (V (srcshape) (bits…)) — broadcast view
+   fail   := N | T | F | ((shape) (bits…))
+   expr   := (leaf <opd>) | (un <path> <fail> <expr>) | (bin <path> <fail> <expr> <expr>)
+   answer := ((shape) (bits…))  — the expanded result mask    |   ValueError
+-/
+namespace Drv.C01
+open PMV PMV.MaskPath Drv
+
+def arrOf (shape : Shape) (bits : List Bool) : Arr Bool :=
+  let data := bits.toArray
+  ⟨shape, fun i => data[ravel shape i]!⟩
+
+def parseMaskS (shape : Shape) : Sx → Option Mask
+  | .atom "T" => some (.all true)
+  | .atom "F" => some (.all false)
+  | .list [.atom "V", src, bits] => do
+    let s ← src.nats?
+    let b ← bits.bools?
+    some (Mask.view (arrOf s b) shape)
+  | x => do
+    let b ← x.bools?
+    some (.arr (arrOf shape b))
+
+def parseOpd : Sx → Option Opd
+  | .list [sh, m] => do
+    let shape ← sh.nats?
+    let mask ← parseMaskS shape m
+    some ⟨shape, mask⟩
+  | _ => none
+
+def parseFail : Sx → Option Mask
+  | .atom "N" => some (.all false)
+  | .atom "T" => some (.all true)
+  | .atom "F" => some (.all false)
+  | .list [sh, bits] => do
+    let s ← sh.nats?
+    let b ← bits.bools?
+    some (.arr (arrOf s b))
+  | _ => none
+
+def parsePath : String → Option Path
+  | "cloneSet" => some .cloneSet
+  | "setTrue" => some .setTrue
+  | "ctor1" => some .ctor1
+  | "ctorOr" => some (.ctorOr false)
+  | "ctorOrSame" => some (.ctorOr true)
+  | "ctorOr3" => some .ctorOr3
+  | "divScalar" => some (.divScalar false)
+  | "divScalarSame" => some (.divScalar true)
+  | "divPipe" => some .divPipe
+  | "guard" => some .guard
+  | "guardAsin" => some .guardAsin
+  | "pow0D" => some (.pow0D false)
+  | "powArr" => some (.powArr false)
+  | "elementDiv" => some (.elementDiv false)
+  | "matInverse" => some .matInverse
+  | _ => none
+
+def out (r : Option (Shape × Mask)) : Sx :=
+  match r with
+  | none => .atom "ValueError"
+  | some (s, m) => .list [Sx.ofNats s, Sx.ofBools ((indices s).map m.atB)]
+
+partial def parseExpr : Sx → Option MExpr
+  | .list [.atom "leaf", o] => (parseOpd o).map .leaf
+  | .list [.atom "un", .atom p, f, e] => do
+    let p ← parsePath p
+    let f ← parseFail f
+    let e ← parseExpr e
+    some (.un p f e)
+  | .list [.atom "bin", .atom p, f, e1, e2] => do
+    let p ← parsePath p
+    let f ← parseFail f
+    let e1 ← parseExpr e1
+    let e2 ← parseExpr e2
+    some (.bin p f e1 e2)
+  | _ => none
+
+def handle : List Sx → Sx
+  | [.atom "run", .atom p, .list ops, f] =>
+    match parsePath p, ops.mapM parseOpd, parseFail f with
+    | some p, some ops, some f => out (run p ops f)
+    | _, _, _ => err "operand"
+  | [.atom "tree", e] =>
+    match parseExpr e with
+    | some e => out (e.eval.map fun o => (o.shape, o.mask))
+    | none => err "expr"
+  | _ => err "c01-op"
+
+end Drv.C01
+
+def main : IO Unit := Drv.runLoop fun x =>
+  match x with
+  | .list (.atom "c01" :: rest) => Drv.C01.handle rest
+  | _ => .atom "bad-op"
